@@ -26,7 +26,7 @@ Definition mk_children (l : list (N * script)) : list child :=
   map (fun p => mk_child (fst p) (snd p)) l.
 
 (** the lower bound of the iterator's size_hint that [from_iter] sees *)
-Definition lazy_hint (p : cparams) (cs : list child) : nat := if p_lazy p then 0 else length cs.
+Definition lazy_hint (p : cparams) (cs : list child) : nat := match p_lazy p with Some k => k | None => length cs end.
 
 Definition seed_of (p : cparams) : Z := match p_seed p with Some z => z | None => 0%Z end.
 
